@@ -179,6 +179,9 @@ pub fn run(run: &Run) {
         let terms = u::u_term(&f, tier);
         let mut vals: Vec<V> = terms.into_iter().map(V::term).collect();
         vals.extend(u::u_sent(&f));
+        if f.name == "han" {
+            vals.extend(u::han_collide_values());
+        }
         let strings: Vec<(String, &V)> = vals
             .par_iter()
             .filter_map(|v| {
@@ -215,7 +218,11 @@ pub fn run(run: &Run) {
                 for (cop, expect) in derived {
                     let toks = sugar_tokens(&f, &s, cop, &p);
                     for (t, r) in contexts(&f, &toks, &expect) {
-                        out.push((emit::join(&t, " "), V::term(r)));
+                        out.push((emit::join(&t, " "), V::term(r.clone())));
+                        if s.tag.is_atom() && p.tag.is_atom() {
+                            // written without any optional space, as the Han formatter would
+                            out.push((emit::join(&t, ""), V::term(r)));
+                        }
                     }
                 }
                 out
@@ -229,6 +236,9 @@ pub fn run(run: &Run) {
             let expect = v.canon();
             if let Err(msg) = crate::watch::case(s, || case(&f, s, Some(&expect))) {
                 let mut fs = features(&f, Some(v), s);
+                if f.name == "han" && c01::han_name_ends_with_copula_head(&v.term) {
+                    fs.push("han-name-ending-in-first-character-of-a-two-character-copula".into());
+                }
                 if v.term.has_placeholder_component_in_image() {
                     fs.push("image-placeholder-component-before-index".into());
                 }
